@@ -272,6 +272,39 @@ def close_pool():
         _DEAD_POOLS.append(pool)
 
 
+def state_key(obj, depth=3):
+    """Hashable summary of every data attribute of a real object, whatever the attributes are called (so that a check
+    does not depend on the names of private fields): ints/bools/bytes/str as they are, events by is_set(), containers by
+    their items (packet-like objects by type name), nested plain objects by their own attributes."""
+    import asyncio
+    import collections
+
+    def k(v, d):
+        if isinstance(v, (bool, int, float, str, bytes, type(None))):
+            return v
+        if isinstance(v, (bytearray, memoryview)):
+            return bytes(v)
+        if isinstance(v, asyncio.Event):
+            return ('event', v.is_set())
+        if isinstance(v, (asyncio.Future,)):
+            return ('future', v.done())
+        if isinstance(v, (list, tuple, collections.deque)):
+            return tuple(k(x, d) for x in v)
+        if isinstance(v, (set, frozenset)):
+            return tuple(sorted((k(x, d) for x in v), key=repr))
+        if isinstance(v, dict):
+            return tuple(sorted(((k(a, d), k(b, d)) for a, b in v.items()), key=repr))
+        if callable(v):
+            return 'callable'
+        if d > 0 and hasattr(v, '__dict__') and not isinstance(v, type):
+            # plain data holders only (dataclasses and the like); anything else by type name
+            if type(v).__module__.startswith('bumble') and len(vars(v)) <= 8 and not hasattr(v, 'op_code') and not hasattr(v, 'connection_handle'):
+                return (type(v).__name__,) + tuple((a, k(b, d - 1)) for a, b in sorted(vars(v).items()))
+        return type(v).__name__
+
+    return tuple((a, k(b, depth)) for a, b in sorted(vars(obj).items()))
+
+
 def split(items: list, n: int) -> list[list]:
     """n interleaved slices (balanced when cost correlates with position)."""
     n = max(1, min(n, len(items)))
